@@ -144,7 +144,7 @@ func c10Run(f []string) string {
 					}
 				}()
 				ctx := mk(g)
-				for k := 0; k < 20000; k++ {
+				for k := 0; k < 6000; k++ {
 					if got := compiled.BuildKey(ctx); got != want[g] {
 						bad <- fmt.Sprintf("DIFF worker=%d concurrent=%s sequential=%s", g, HexS(got), HexS(want[g]))
 						return
@@ -309,6 +309,9 @@ func c10Gen(r *Rand, tier string) []string {
 			}
 			if tier != "thorough" && i%3 != 0 {
 				continue
+			}
+			if t := string(UnHex(f[2])); strings.Contains(t, "@range -9223372036854775808") {
+				continue // MAX_ITERATIONS rounds of 19-digit arithmetic: 5 s in the Lean driver; C17's own check keeps it
 			}
 			out = append(out, fmt.Sprintf("optdiff %s %s %s", f[2], f[3], f[4]))
 		}
